@@ -298,7 +298,18 @@ package server
 //@   requires [namespace-registry] esp.store.NamespaceManager != nil && !has($held, addrOf(esp.store.NamespaceManager.lock))
 //@   ensures [lock-released] $held == old($held)
 //@   ensures [no-transaction-on-error] ret1 != nil ==> ret0 == nil
+//@   ensures [each-dataset-gets-its-own-entity-list] ret1 == nil ==> ret0 != nil && (forall a string, b string :: a != b && has(ret0.DatasetEntities, a) && has(ret0.DatasetEntities, b) && cap(ret0.DatasetEntities[a]) > 0 && cap(ret0.DatasetEntities[b]) > 0 ==> arrOf(ret0.DatasetEntities[a]) != arrOf(ret0.DatasetEntities[b]))
 //@   safe typeassert nilmap
+//@   loop 1
+//@     invariant txn != nil && txn.DatasetEntities != nil
+//@     invariant forall a string :: has(txn.DatasetEntities, a) ==> allocated(txn.DatasetEntities[a])
+//@     invariant forall a string, b string :: a != b && has(txn.DatasetEntities, a) && has(txn.DatasetEntities, b) && cap(txn.DatasetEntities[a]) > 0 && cap(txn.DatasetEntities[b]) > 0 ==> arrOf(txn.DatasetEntities[a]) != arrOf(txn.DatasetEntities[b])
+//@   loop 2
+//@     invariant txn != nil && txn.DatasetEntities != nil
+//@     invariant forall a string :: has(txn.DatasetEntities, a) ==> allocated(txn.DatasetEntities[a])
+//@     invariant forall a string, b string :: a != b && has(txn.DatasetEntities, a) && has(txn.DatasetEntities, b) && cap(txn.DatasetEntities[a]) > 0 && cap(txn.DatasetEntities[b]) > 0 ==> arrOf(txn.DatasetEntities[a]) != arrOf(txn.DatasetEntities[b])
+//@     invariant allocated(entities)
+//@     invariant forall a string :: has(txn.DatasetEntities, a) && cap(txn.DatasetEntities[a]) > 0 && cap(entities) > 0 ==> arrOf(txn.DatasetEntities[a]) != arrOf(entities)
 
 // ---------------------------------------------------------------------------
 // C18 / C02: the change log of a dataset
